@@ -35,7 +35,7 @@ def accessors : List (String × String × String × String × Bool) := [
   ("interrogateDatabase.cxx", "InterrogateDatabase::get_all_function", "_all_functions", "n", true),
   ("interrogateDatabase.cxx", "InterrogateDatabase::get_global_manifest", "_global_manifests", "n", true),
   ("interrogateDatabase.cxx", "InterrogateDatabase::get_global_element", "_global_elements", "n", true),
-  ("interrogateDatabase.cxx", "InterrogateDatabase::get_fptr", "def->fptrs", "module_index", false)
+  ("interrogateDatabase.cxx", "InterrogateDatabase::get_fptr", "def->fptrs", "module_index", true)
 ]
 def lookupBits : List (String × Nat) := [("LT_type_name", 1), ("LT_type_scoped_name", 2), ("LT_type_true_name", 4), ("LT_manifest_name", 8), ("LT_element_name", 16), ("LT_element_scoped_name", 32)]
 
